@@ -537,9 +537,19 @@ class Pointwise:
     inline_nat = {}
     UFUNCS = {"np.divide": "/", "np.multiply": "*", "np.add": "+", "np.subtract": "-"}
 
+    bool_params = ()
+
     def cond(self, e):
         if isinstance(e, ast.Name) and e.id in self.masks:
             return self.masks[e.id]
+        nb = self.name_of(e)
+        if nb is not None and nb in self.bool_params:
+            if nb not in [q for q, _ in self.params]:
+                self.params.append((nb, "Bool"))
+            return f"({nb} = true)"
+        if isinstance(e, ast.BinOp) and isinstance(e.op, ast.Mult):
+            # product of Boolean arrays = conjunction
+            return f"({self.cond(e.left)} ∧ {self.cond(e.right)})"
         if isinstance(e, ast.Compare) and len(e.ops) == 1:
             a, b = self.expr(e.left), self.expr(e.comparators[0])
             op = {ast.Gt: ">", ast.GtE: "≥", ast.Lt: "<", ast.LtE: "≤", ast.NotEq: "≠", ast.Eq: "="}.get(type(e.ops[0]))
@@ -570,6 +580,10 @@ class Pointwise:
             return f"(if {self.cond(e)} then (1 : Rat) else 0)"
         if isinstance(e, ast.Subscript) and mask is not None and self._mask_key(e.slice) == mask:
             return self.expr(e.value, mask)
+        if isinstance(e, ast.Subscript) and isinstance(e.slice, ast.Tuple) and all(
+                (isinstance(x, ast.Slice) and x.lower is None and x.upper is None and x.step is None)
+                or attr_chain(x) == "np.newaxis" or (isinstance(x, ast.Constant) and x.value is None) for x in e.slice.elts):
+            return self.expr(e.value, mask)                # x[:, np.newaxis]: the same cell value
         if isinstance(e, ast.Call):
             f = e.func
             if isinstance(f, ast.Attribute) and f.attr in ("flatten", "copy", "ravel") and not e.args:
@@ -581,6 +595,14 @@ class Pointwise:
                 return f"(min {self.expr(e.args[0], mask)} {self.expr(e.args[1], mask)})"
             if ch == "np.where" and len(e.args) == 3 and not e.keywords:
                 return f"(if {self.cond(e.args[0])} then {self.expr(e.args[1], mask)} else {self.expr(e.args[2], mask)})"
+            if ch == "np.tile" and len(e.args) == 2 and not e.keywords:
+                return self.expr(e.args[0], mask)          # broadcasting: the same cell value
+            if ch == "np.nan_to_num" and len(e.args) == 1 and [k.arg for k in e.keywords] == ["posinf"] \
+                    and isinstance(e.keywords[0].value, ast.Constant) and e.keywords[0].value.value == 0:
+                n0 = self.name_of(e.args[0])
+                if n0 is not None:
+                    self.notes.append(f"`{ast.unparse(e)}` is the parameter `{n0}_posinf0` (an infinite value replaced by 0)")
+                    return self.var(n0 + "_posinf0")
             if ch == "np.nan_to_num" and len(e.args) == 1:
                 self.notes.append("`np.nan_to_num` is the identity (no NaN over the rationals)")
                 return self.expr(e.args[0], mask)
@@ -670,9 +692,9 @@ class Pointwise:
 
     inline_none = ()
 
-    def run(self, result=None):
+    def run(self, result=None, body=None):
         ret = None
-        for st in self.fn.body:
+        for st in (self.fn.body if body is None else body):
             ret = self.stmt(st)
             if ret is not None:
                 break
@@ -683,15 +705,20 @@ class Pointwise:
         return ret
 
 
-def lean_formula(name, fn, doc, nat_params=(), inline=None, inline_nat=None, inline_none=(), result=None, fixed_params=None):
+def lean_formula(name, fn, doc, nat_params=(), inline=None, inline_nat=None, inline_none=(), result=None, fixed_params=None,
+                 bool_params=(), body=None):
     pw = Pointwise(fn, nat_params=nat_params, inline=inline)
     pw.inline_nat = dict(inline_nat or {})
     pw.inline_none = tuple(inline_none)
+    pw.bool_params = tuple(bool_params)
     try:
         if fixed_params:
             for q in fixed_params:
-                pw.var(q)
-        ret = pw.run(result)
+                if q in pw.bool_params:
+                    pw.params.append((q, "Bool"))
+                else:
+                    pw.var(q)
+        ret = pw.run(result, body=body(fn) if callable(body) else body)
         body = "\n".join(pw.lines + [f"  {ret}"])
         notes = "".join(f"\n    {n}" for n in pw.notes)
         sig = " ".join(f"({q} : {k})" for q, k in pw.params)
@@ -720,6 +747,35 @@ def gen_formulas(trees, rec_tree):
         "production_opt", find_func(base, "production_opt"),
         "`ARIOBaseModel.production_opt`, one industry (capacity given).",
         fixed_params=["entire_demand_tot", "production_cap"]))
+    psi_cls = find_class(trees["extended_models"], "ARIOPsiModel")
+    parts.append(lean_formula(
+        "calc_inventory_constraints_base", find_func(base, "calc_inventory_constraints"),
+        "`ARIOBaseModel.calc_inventory_constraints`, one (input, industry) cell.",
+        fixed_params=["production", "tech_mat", "inv_duration_posinf0"]))
+    parts.append(lean_formula(
+        "calc_inventory_constraints_psi", find_func(psi_cls, "calc_inventory_constraints"),
+        "`ARIOPsiModel.calc_inventory_constraints`, one (input, industry) cell.",
+        fixed_params=["production", "tech_mat", "psi", "inv_duration_posinf0"]))
+
+    def shortage_branch(fn):
+        """the statements of `calc_production` that build `production_max` (inside `if stock_constraint.any():`)"""
+        for st in fn.body:
+            if isinstance(st, ast.If):
+                sel = []
+                for s2 in st.body:
+                    tg = s2.targets[0] if isinstance(s2, ast.Assign) and len(s2.targets) == 1 else None
+                    if isinstance(tg, ast.Attribute) or (isinstance(s2, ast.If)) or isinstance(s2, ast.Assert):
+                        continue          # flags, logging, assertions
+                    sel.append(s2)
+                    if isinstance(tg, ast.Name) and tg.id == "production_max":
+                        return sel
+        raise Untranslatable("shortage branch of calc_production not found")
+    parts.append(lean_formula(
+        "production_max_cell", find_func(base, "calc_production"),
+        "`ARIOBaseModel.calc_production`, shortage branch, one (input, industry) cell of `production_max` "
+        "(`production_opt` and `inventory_constraints` are the local copies made at the top of the function).",
+        fixed_params=["threshold_not_input", "inputs_stock", "inventory_constraints", "production_opt"],
+        bool_params=("threshold_not_input",), body=shortage_branch, result="production_max"))
     rec = dict(nat_params=("elapsed_temporal_unit", "recovery_tau"))
     sim_passes = "the simulation binds `init_impact_stock` and `recovery_tau` and passes `elapsed_temporal_unit`; other parameters keep their defaults"
     for fname in ("linear_recovery", "convexe_recovery", "convexe_recovery_scaled"):
